@@ -154,7 +154,22 @@ func main() {
 	for i := 0; i < *count; i++ {
 		seed := *from + uint64(i)
 		fmt.Fprintf(os.Stderr, "RUN seed=%d\n", seed)
+		var before []uint32
+		if os.Getenv("VERIF_DEBUG_SITES") != "" {
+			before = simrt.SiteHitCounts()
+		}
 		res := sim.RunOne(seed, nil, build, *trace, *wantTape)
+		if before != nil {
+			// debugging aid: per-site execution counts of this run on stderr
+			after := simrt.SiteHitCounts()
+			fmt.Fprintf(os.Stderr, "SITES seed=%d", seed)
+			for k := range after {
+				if d := after[k] - before[k]; d != 0 {
+					fmt.Fprintf(os.Stderr, " %d:%d", k, d)
+				}
+			}
+			fmt.Fprintln(os.Stderr)
+		}
 		if err := enc.Encode(res); err != nil {
 			fmt.Fprintln(os.Stderr, "simworld:", err)
 			os.Exit(2)
